@@ -468,3 +468,158 @@ Lemma mark_lost_refuted : exists xs e, read_state xs (mark_of xs e) <> e_state e
 Proof. exists SCleared, (no_extra SPending). discriminate. Qed.
 
 End Reread.
+
+(* ================================================================== equity *)
+Section Equity.
+Local Open Scope Q_scope.
+
+Definition asum (amts : list amount) (c : option comm) : Q :=
+  fold_right (fun a acc => at_comm a c + acc) 0 amts.
+Definition psum (ps : list post) (c : option comm) : Q :=
+  fold_right (fun p acc => match p_amt p with Some a => at_comm a c | None => 0 end + acc) 0 ps.
+
+(* amounts as they are written or inferred from written ones: not keep_precision, and no more
+   decimals than the commodity displays *)
+Definition fine (cp : comm -> Z) (a : amount) : Prop :=
+  akeep a = false /\ match acomm a with Some c => (aprec a <= cp c)%Z | None => True end.
+Definition fine_value (cp : comm -> Z) (v : value) : Prop :=
+  match v with VAmt a => fine cp a | VBal b => forall x, In x b -> fine cp x | _ => True end.
+
+Lemma fine_is_zero cp a : fine cp a -> is_zero cp a = is_realzero a.
+Proof.
+  intros [Hk Hp]. unfold is_zero. destruct (acomm a) as [c|]; [|reflexivity].
+  rewrite Hk. cbn [orb]. replace (aprec a <=? cp c)%Z with true by (symmetry; apply Z.leb_le; exact Hp). reflexivity.
+Qed.
+
+Lemma fine_add cp x a s : comm_eqb (acomm x) (acomm a) = true -> fine cp x -> fine cp a -> amt_add x a = Ok s -> fine cp s.
+Proof.
+  intros Hc [Hkx Hpx] [Hka Hpa]. unfold amt_add. destruct (diff_comm x a); [discriminate|]. intros [= <-].
+  apply comm_eqb_eq in Hc. split; [exact Hkx|]. cbn [acomm aprec].
+  unfold addsub_prec, has_comm. rewrite <- Hc, Bool.eqb_reflx. rewrite <- Hc in Hpa.
+  destruct (acomm x); [|exact I]. destruct (aprec x <? aprec a)%Z; assumption.
+Qed.
+
+Lemma in_bal_replace k y b x : In x (bal_replace k y b) -> x = y \/ In x b.
+Proof.
+  induction b as [|z b IH]; cbn [bal_replace]; [intros []|].
+  destruct (comm_eqb (acomm z) k); cbn [In]; intros [H|H]; auto. destruct (IH H); auto.
+Qed.
+
+Lemma fine_bal_add_amt cp ord b a b' :
+  (forall x, In x b -> fine cp x) -> fine cp a -> bal_add_amt ord b a = Ok b' -> forall x, In x b' -> fine cp x.
+Proof.
+  intros Hb Ha. unfold bal_add_amt. destruct (is_realzero a); [intros [= <-]; exact Hb|].
+  destruct (bal_find (acomm a) b) as [y|] eqn:Hf.
+  - destruct (amt_add y a) as [s|] eqn:Hs; cbn [bind]; [|discriminate]. intros [= <-] x Hx.
+    destruct (in_bal_replace _ _ _ _ Hx) as [->|Hi]; [|apply Hb; exact Hi].
+    apply (fine_add cp y a s); [apply (bal_find_some _ _ _ Hf) | apply Hb, (bal_find_some_in _ _ _ Hf) | exact Ha | exact Hs].
+  - intros [= <-] x Hx. unfold bal_insert in Hx. destruct ord.
+    + destruct Hx as [<-|Hx]; [exact Ha | apply Hb; exact Hx].
+    + apply in_app_or in Hx. destruct Hx as [Hx|[<-|[]]]; [apply Hb; exact Hx | exact Ha].
+Qed.
+
+Lemma fine_bal_of_amt cp a : fine cp a -> forall x, In x (bal_of_amt a) -> fine cp x.
+Proof. intros Ha x. unfold bal_of_amt. destruct (is_realzero a); [intros [] | intros [<-|[]]; exact Ha]. Qed.
+
+Lemma fine_add_or_set cp ord v a v' :
+  is_sum_value v -> fine_value cp v -> fine cp a -> add_or_set ord v a = Ok v' -> fine_value cp v'.
+Proof.
+  destruct v as [| ? | ? | x | b]; cbn [is_sum_value]; try contradiction; intros _ Hv Ha; unfold add_or_set.
+  - intros [= <-]. exact Ha.
+  - cbn [v_add]. destruct (comm_eqb (acomm x) (acomm a)) eqn:Hc.
+    + destruct (amt_add x a) as [s|] eqn:Hs; cbn [bind]; [|discriminate]. intros [= <-].
+      apply (fine_add cp x a s Hc Hv Ha Hs).
+    + destruct (bal_add_amt ord (bal_of_amt x) a) as [b'|] eqn:E; cbn [bind]; [|discriminate]. intros [= <-].
+      exact (fine_bal_add_amt cp ord _ a b' (fine_bal_of_amt cp x Hv) Ha E).
+  - cbn [v_add]. destruct (bal_add_amt ord b a) as [b'|] eqn:E; cbn [bind]; [|discriminate]. intros [= <-].
+    exact (fine_bal_add_amt cp ord b a b' Hv Ha E).
+Qed.
+
+Lemma sum_value_spec cp ord c : forall amts v v',
+  is_sum_value v -> sum_value_nodup v -> fine_value cp v -> (forall a, In a amts -> fine cp a) ->
+  sum_value ord v amts = Ok v' ->
+  den v' c == den v c + asum amts c /\ is_sum_value v' /\ sum_value_nodup v' /\ fine_value cp v'.
+Proof.
+  induction amts as [|a amts IH]; intros v v' Hs Hn Hf Ha; cbn [sum_value asum fold_right].
+  - intros [= <-]. repeat split; try assumption. ring.
+  - destruct (add_or_set_ok ord v a Hs) as [v1 [E [Hs1 _]]]. rewrite E. cbn [bind]. intros H.
+    assert (Hfa : fine cp a) by (apply Ha; left; reflexivity).
+    destruct (IH v1 v' Hs1 (add_or_set_nodup _ _ _ _ Hn Hs E) (fine_add_or_set cp ord v a v1 Hs Hf Hfa E)
+                 (fun x Hx => Ha x (or_intror Hx)) H) as [Hd R].
+    split; [|exact R]. rewrite Hd, (add_or_set_exact _ _ _ _ c E). unfold asum. ring.
+Qed.
+
+Lemma in_insert_sorted a l x : In x (insert_sorted a l) -> x = a \/ In x l.
+Proof.
+  induction l as [|y l IH]; cbn [insert_sorted]; [intros [<-|[]]; auto|].
+  destruct (comm_le a y); cbn [In]; intros [H|H]; auto. destruct (IH H); auto.
+Qed.
+
+Lemma in_sorted_amounts b x : In x (sorted_amounts b) -> In x b.
+Proof.
+  induction b as [|y b IH]; cbn [sorted_amounts fold_right]; [intros []|]. fold (sorted_amounts b).
+  intros H. destruct (in_insert_sorted _ _ _ H) as [->|Hi]; [left; reflexivity | right; apply IH; exact Hi].
+Qed.
+
+Lemma asum_insert_sorted c a l : asum (insert_sorted a l) c == at_comm a c + asum l c.
+Proof.
+  induction l as [|x l IH]; cbn [insert_sorted asum fold_right]; [reflexivity|].
+  destruct (comm_le a x); cbn [asum fold_right]; [reflexivity|]. unfold asum in IH. rewrite IH. ring.
+Qed.
+
+Lemma asum_sorted c b : asum (sorted_amounts b) c == bden b c.
+Proof.
+  induction b as [|x b IH]; cbn [sorted_amounts fold_right bden]; [reflexivity|]. fold (sorted_amounts b).
+  rewrite asum_insert_sorted, IH. unfold at_comm. ring.
+Qed.
+
+Lemma asum_filter_nonzero cp c l : (forall x, In x l -> fine cp x) ->
+  asum (filter (fun a => negb (is_zero cp a)) l) c == asum l c.
+Proof.
+  induction l as [|x l IH]; intros Hf; cbn [filter asum fold_right]; [reflexivity|].
+  assert (IH' := IH (fun y Hy => Hf y (or_intror Hy))). unfold asum in IH'.
+  destruct (is_zero cp x) eqn:Hz; cbn [negb asum fold_right].
+  - rewrite IH'. rewrite (fine_is_zero cp x (Hf x (or_introl eq_refl))) in Hz. apply is_realzero_spec in Hz.
+    unfold at_comm. destruct (comm_eqb (acomm x) c); [rewrite Hz|]; ring.
+  - rewrite IH'. reflexivity.
+Qed.
+
+Lemma psum_map acct kind amts c :
+  psum (map (fun a => mkPost acct kind (Some a) None None false false false) amts) c == asum amts c.
+Proof. induction amts as [|a l IH]; cbn [map psum asum fold_right p_amt]; [reflexivity|]. unfold psum, asum in IH. rewrite IH. reflexivity. Qed.
+
+(* the opening-balances postings of an account carry, per commodity, exactly the sum of the
+   amounts reported for it *)
+Theorem equity_reproduces_balances ord cp acct kind amts ps c :
+  (forall a, In a amts -> fine cp a) ->
+  equity_account ord cp acct kind amts = Ok ps ->
+  psum ps c == asum amts c.
+Proof.
+  intros Hf. unfold equity_account. destruct (sum_value ord VVoid amts) as [v|] eqn:Hs; cbn [bind]; [|discriminate].
+  intros [= <-]. rewrite psum_map.
+  destruct (sum_value_spec cp ord c amts VVoid v I I I Hf Hs) as [Hd [Hsv [Hn Hfv]]].
+  cbn [den] in Hd. rewrite Qplus_0_l in Hd. rewrite <- Hd. clear Hd Hs.
+  unfold equity_amounts. destruct (v_is_zero cp v) eqn:Hz.
+  - cbn [asum fold_right]. symmetry.
+    destruct v as [| ? | ? | a | b]; cbn [is_sum_value] in Hsv; try contradiction; cbn [den v_is_zero fine_value] in *.
+    + reflexivity.
+    + rewrite (fine_is_zero cp a Hfv) in Hz. apply is_realzero_spec in Hz.
+      unfold at_comm. destruct (comm_eqb (acomm a) c); [exact Hz | reflexivity].
+    + apply bal_is_realzero_bden. unfold bal_is_realzero, bal_is_zero in *. apply forallb_forall. intros x Hx.
+      rewrite forallb_forall in Hz. rewrite <- (fine_is_zero cp x (Hfv x Hx)). apply Hz. exact Hx.
+  - destruct v as [| ? | ? | a | b]; cbn [is_sum_value] in Hsv; try contradiction; cbn [den fine_value] in *.
+    + discriminate.
+    + cbn [asum fold_right]. ring.
+    + rewrite asum_filter_nonzero by (intros x Hx; apply Hfv, in_sorted_amounts; exact Hx).
+      apply asum_sorted.
+Qed.
+
+(* ... and the text print writes for them is exact under the same hypothesis *)
+Lemma fine_printable_exact cp a :
+  fine cp a -> printable cp a -> aq (read_back_value cp a) == aq a.
+Proof.
+  intros [_ Hp] Hpr. apply read_back_value_written; [exact Hpr|].
+  destruct (acomm a); [right; exact Hp | exact I].
+Qed.
+
+End Equity.
